@@ -21,7 +21,6 @@ A VIOLATION is only ever raised from a verdict of TLC on an answer of the real c
 from __future__ import annotations
 
 import concurrent.futures as cf
-import heapq
 import json
 import multiprocessing as mp
 import os
@@ -158,7 +157,7 @@ def replay_dump(ctx, pool, n, dump, label, budget_s):
     seed-determined order; no new DAG is started after budget_s seconds (the evidence says how
     many were done)."""
     t0 = time.time()
-    tables, cases = L.read_cases(dump)
+    tables, cases = dump if isinstance(dump, tuple) else L.read_cases(dump)
     plan = plan_for(ctx, n)
     tasks = []
     for p, cs in sorted(cases.items()):
@@ -168,7 +167,6 @@ def replay_dump(ctx, pool, n, dump, label, budget_s):
                               deadline=t0 + budget_s))
     ctx.rng.shuffle(tasks)
     ncase = sum(len(cs) for cs in cases.values())
-    ndag = len(cases)
     chunk = max(1, min(32, len(tasks) // (PROCS * 16)))
     stats = {"cases": 0, "queries": 0, "suspect": 0, "by_kind": {}, "dags_done": 0, "tlc_cases_done": 0}
 
@@ -649,20 +647,37 @@ def run(ctx):
     # ---- 4. spec -> code: replay every enumerated case on the real functions
     records = []
     pool = mp.get_context("fork").Pool(PROCS)
+
+    def enumerated(name, n, l, k, what):
+        """Result of a GraphCases run: (tables, cases).  The dump must hold a table for every canonical
+        DAG and the number of states TLC reports; a short dump (seen once on an overloaded machine)
+        is regenerated once, then it is a machinery failure."""
+        for attempt in (1, 2):
+            r = jobs.get(name)
+            ctx.add_tlc(f"GraphCases N={n}: {what}" + ("" if attempt == 1 else " (second attempt)"), r)
+            path = os.path.join(d, name)
+            try:
+                tables, cases = L.read_cases(path)
+                ncases = sum(len(v) for v in cases.values())
+                if len(tables) != 2 ** (n * (n - 1) // 2) or set(cases) != set(tables) or \
+                        2 * len(tables) + ncases != r.distinct:
+                    raise ValueError(f"{len(tables)} tables, {ncases} cases, TLC reported {r.distinct} states")
+                os.remove(path + ".dump")
+                return tables, cases
+            except ValueError as e:
+                if attempt == 2:
+                    raise MachineryError(f"state dump of {name} unusable: {e}")
+                ctx.log(f"state dump of {name} unusable ({e}); running TLC again")
+                jobs.submit(name, "GraphCases.tla", cases_cfg(d, name, n, l, k, seed), dump_states=path, workers=4)
     try:
-        r = jobs.get("cases4")
-        ctx.add_tlc("GraphCases N=4: all 64 canonical DAGs x all 75 weak orders of timestamps", r)
-        records += replay_dump(ctx, pool, 4, os.path.join(d, "cases4"), "N=4 exhaustive", ctx.pick(22, 240))
-        r = jobs.get("cases5")
-        ctx.add_tlc("GraphCases N=5: all 1024 canonical DAGs x " + ("3 sampled" if ctx.quick else "all 541") + " weak orders", r)
-        records += replay_dump(ctx, pool, 5, os.path.join(d, "cases5"), "N=5 " + ("sampled clocks" if ctx.quick else "exhaustive"),
-                               ctx.pick(10, 420))
-        os.remove(os.path.join(d, "cases5.dump"))
+        records += replay_dump(ctx, pool, 4, enumerated("cases4", 4, 4, 0, "all 64 canonical DAGs x all 75 weak orders of timestamps"),
+                               "N=4 exhaustive", ctx.pick(22, 240))
+        records += replay_dump(ctx, pool, 5, enumerated("cases5", 5, 5, ctx.pick(3, 0), "all 1024 canonical DAGs x "
+                                                        + ("3 sampled" if ctx.quick else "all 541") + " weak orders"),
+                               "N=5 " + ("sampled clocks" if ctx.quick else "exhaustive"), ctx.pick(10, 420))
         if not ctx.quick:
-            r = jobs.get("cases6")
-            ctx.add_tlc("GraphCases N=6: all 32768 canonical DAGs x 4 sampled weak orders", r)
-            records += replay_dump(ctx, pool, 6, os.path.join(d, "cases6"), "N=6 sampled clocks", 180)
-            os.remove(os.path.join(d, "cases6.dump"))
+            records += replay_dump(ctx, pool, 6, enumerated("cases6", 6, 6, 4, "all 32768 canonical DAGs x 4 sampled weak orders"),
+                                   "N=6 sampled clocks", 180)
         # ---- 5. code -> spec: random large histories, disk repositories, commit-graph, C git
         nbig = ctx.pick(360, 2500)
         ndisk = ctx.pick(14, 120)
